@@ -101,7 +101,7 @@ class ValCheck(PtgCheck):
 
     def static_flags(self, prog):
         """(flags string, runnable) — the same flags the model driver prints"""
-        wf = jdfgen.wf(prog)
+        wf = pv.wf_fm(prog)          # first applicable input dependency wins (PTGValDefs.wf_program_fm)
         sem = pv.Sem(prog) if wf else None
         safe = bool(wf and pv.safe(sem))
         un = bool(wf and pv.reads_uninit(sem))
@@ -180,7 +180,7 @@ def hb_violation(prog, sem, ents):
 class C02(ValCheck):
     id = "C02"
     prop_file = "theories/Properties/Properties_C02.v"
-    theorems = ("C02_safe_check_sound", "C02_dependencies_are_C01", "C02_begin_after_predecessors",
+    theorems = ("C02_wf_program_implies_fm", "C02_safe_check_sound", "C02_dependencies_are_C01", "C02_begin_after_predecessors",
                 "C02_started_task_holds_producer_values", "C02_running_task_sees_named_values",
                 "C02_body_reads_named_values", "C02_sequential_execution_completes",
                 "C02_final_data_equal_sequential", "C02_observed_inputs_schedule_independent",
@@ -209,8 +209,9 @@ class C02(ValCheck):
                   "bodies read one are not run.")
     technique = ("Coq invariant proof over all schedules of a dataflow engine with shared data copies + observation-differential runs "
                  "of generated JDF programs (two ptgpp dependency back-ends) against the extracted sequential execution")
-    rule = ("hazard-free programs from the DAG templates (chain, bcast_gather, diamond, split_merge, pipeline2d, fan, tri, mixed, "
-            "bcast_read, relay): in-place RW chains from D(k), NEW tiles broadcast to READ consumers, ternary/guarded inputs, control "
+    rule = ("hazard-free programs from the DAG templates (overlap, chain, fan, bcast_gather, diamond, split_merge, pipeline2d, tri, mixed, "
+            "bcast_read, relay): data flows with OVERLAPPING input guards (a guarded task dependency followed by an unguarded or "
+            "weaker-guarded D(..) fallback: first match wins) next to a second task-fed flow, in-place RW chains from D(k), NEW tiles broadcast to READ consumers, ternary/guarded inputs, control "
             "gathers ordering a reader before an overwriter, write-backs; each under 4 configurations scheduler[@ia]:threads covering "
             "both back-ends and threads 1,2,4,16, schedulers rotated; non-trivial = at least 2 instances, 1 data edge between tasks; "
             "distinct = program text")
@@ -387,6 +388,7 @@ class C02(ValCheck):
         d = PtgCheck.dist(self, cases)
         d["backends"] = {"ht": 0, "ia": 0}
         d["rw_from_collection"] = d["new_tiles"] = d["writebacks"] = d["data_edges"] = 0
+        d["programs_with_overlapping_input_guards"] = d["flow_instances_with_overlapping_input_guards"] = 0
         for c in cases:
             try:
                 hd, pt = c.split("|", 1)
@@ -396,6 +398,9 @@ class C02(ValCheck):
             for cf in hd.split()[1:]:
                 d["backends"][split_cfg(cf)[0]] += 1
             sem = pv.Sem(p)
+            ov = pv.overlapping_flows(p)
+            d["programs_with_overlapping_input_guards"] += 1 if ov else 0
+            d["flow_instances_with_overlapping_input_guards"] += ov
             for t in sem.ids:
                 d["writebacks"] += len(sem.wbs(t))
                 for f in range(sem.nflows(t)):
